@@ -52,6 +52,8 @@ def raw_log(i, tid, pid, name):
          'ud': {'sec': 1600000000 + i, 'usec': 0}, 'utz': {'mw': 0, 'dt': 0}, 'pid': pid}
     if name is not None:
         e['p'] = name
+    if i % 2:
+        e['lc'] = {'c': 3, 's': 1}         # a LOSS record of the log section (messages dropped): a log record like any other
     return e
 
 
@@ -91,9 +93,9 @@ def judge(kind, stream, logs, T, C, S, P):
         got = run_facade(blob, T, C, S, P, 'kevents')
     except Exception as ex:
         return [('kevents-raised:' + type(ex).__name__, {'err': repr(ex)})]
-    if any(isinstance(x, OsLogEvent) for x in got):
-        bad.append(('log-in-event-listing', {}))
-        got = [x for x in got if not isinstance(x, OsLogEvent)]
+    if any(isinstance(x, OsLogEvent) or not hasattr(x, 'debugid') for x in got):
+        bad.append(('log-in-event-listing', {'types': sorted({type(x).__name__ for x in got})}))
+        got = [x for x in got if not isinstance(x, OsLogEvent) and hasattr(x, 'debugid')]
     exp = []
     for r in recs:
         d = ref_decode(r)
@@ -117,9 +119,9 @@ def judge(kind, stream, logs, T, C, S, P):
             gl = run_facade(blob, T, C, S, P, 'os_log_events')
         except Exception as ex:
             return bad + [('os_log_events-raised:' + type(ex).__name__, {'err': repr(ex)})]
-        if any(not isinstance(x, OsLogEvent) for x in gl):
+        if any(hasattr(x, 'debugid') for x in gl):
             bad.append(('event-in-log-listing', {}))
-            gl = [x for x in gl if isinstance(x, OsLogEvent)]
+            gl = [x for x in gl if not hasattr(x, 'debugid')]
         rev = {v: k for k, v in STR.items()}
         el = []
         for i, l in enumerate(logs):
@@ -130,8 +132,8 @@ def judge(kind, stream, logs, T, C, S, P):
             if P is not None and P not in (pname, str(pid)):
                 continue
             el.append((i, tid, pid, pname))
-        if [(x.size, x.thread_identifier, x.process_identifier, x.process) for x in gl] != el:
-            bad.append(('log-filter-wrong-subsequence', {'got': [(x.size, x.thread_identifier) for x in gl], 'exp': el}))
+        if [(getattr(x, 'size', None), getattr(x, 'thread_identifier', None), getattr(x, 'process_identifier', None), getattr(x, 'process', None)) for x in gl] != el:
+            bad.append(('log-filter-wrong-subsequence', {'got': [(getattr(x, 'size', None), getattr(x, 'thread_identifier', None)) for x in gl], 'exp': el}))
     return bad
 
 
@@ -301,6 +303,20 @@ class C12(Check):
                 if got != exp:
                     acc.violation('event-filter-wrong-subsequence:class-subclass-number-collision', {'kind': 'collide', 'classes': C, 'subclasses': S},
                                   {'got': [hex(g[5]) for g in got], 'expected': [hex(x[5]) for x in exp]})
+                # the same lists kept in other containers (set, frozenset, the keys of a dict, a range where the values are consecutive)
+                if len(C) <= 2 and len(S) <= 2:
+                    for wrap in (set, frozenset, lambda x: dict.fromkeys(x).keys(), lambda x: range(x[0], x[0] + 1) if len(x) == 1 else range(0)):
+                        if wrap(C or [0]).__class__ is range and len(C) > 1 or wrap(S or [0]).__class__ is range and len(S) > 1:
+                            continue
+                        try:
+                            got2 = [obs_event(e) for e in run_facade(blob, None, wrap(C), wrap(S), None, 'kevents')]
+                        except Exception as ex:
+                            got2 = [('RAISED',) * 5 + (0,) + (type(ex).__name__,)]
+                        acc.case(nontrivial=bool(C or S), transitions=1, state=h64(('collide-container', tuple(C), tuple(S))))
+                        if got2 != exp:
+                            acc.violation('event-filter-wrong-subsequence:filter-kept-in-another-container', {'kind': 'collide', 'classes': C, 'subclasses': S, 'container': type(wrap(C)).__name__},
+                                          {'got': [hex(g[5]) for g in got2], 'expected': [hex(x[5]) for x in exp]})
+                            break
         # the FORMATTED event listing: the lines of a filtered listing are the lines the unfiltered listing gives for the same events
         # (a stream in which a thread declares another one: the declaration is itself an event a filter may remove)
         ids2 = [(1, 0x07000004, (9, 55, 0, 0)), (9, 0x040c0050 | 1, (0, 0, 0, 0)), (1, 0x07010004, None), (9, 0x040c0050 | 2, (0, 5, 0, 0)), (1, 0x01400000, (1, 2, 3, 4))]
